@@ -9,8 +9,9 @@ EXPLANATION = ("Solver-decided part: with symbolic field values, serializing an 
                "confirmed by native replay of the same harness.")
 BOUNDS = {"quick": "every class of corpus/core plus a VERIF_SEED-chosen sample of 80 pairs + all singles of the generated pair corpus; strings 0/1, arrays 0/1/2 elements (fixed ones at their length), all leaf values symbolic",
           "thorough": "core corpus with strings and arrays up to 2, plus ALL structs of the generated pair corpus"}
-OUTSIDE = "specifications not in the corpus; mutation through private attributes or object.__setattr__ (not the public interface)"
-ASSUMPTIONS = ["Python property objects without a setter raise AttributeError on assignment (descriptor semantics as modelled by the interpreter; confirmed natively per path model)"]
+OUTSIDE = "specifications not in the corpus; the deserialized-instance clauses on wire-ambiguous layouts of the generated corpus (they are checked on every core class and on the unambiguous generated ones); mutation through private attributes or object.__setattr__ (not the public interface)"
+ASSUMPTIONS = ["re-reading an instance's own bytes: element counts decoded from the wire are explored up to 8 (a wire-ambiguous layout can decode a count of up to 253 from shifted data)",
+               "Python property objects without a setter raise AttributeError on assignment (descriptor semantics as modelled by the interpreter; confirmed natively per path model)"]
 
 
 def trees(tier):
@@ -36,6 +37,11 @@ def jobs(tier):
                            tree="core", collect_models=1))
     _, ptypes, pcls = corpus.pairs(tier, corpus.seed(), 80 if tier == "quick" else None)
     pcfg = {"lens": [0, 1], "counts": [0, 1]}
-    js += [dict(name=f"immutable[pairs:{c['name']}]", fn="immutable", args=[corpus.closure(ptypes, c["instrs"]), c, pcfg], tree="pairs", collect_models=1,
+    # the deserialized-instance clauses re-read the instance's own bytes: for the generated corpus that is done where the
+    # layout is wire-unambiguous (props/unambiguous.py); an ambiguous layout re-reads shifted data with decoded counts of
+    # up to 253 elements, which says nothing about immutability and costs minutes per class
+    from .unambiguous import unambiguous
+    js += [dict(name=f"immutable[pairs:{c['name']}]", fn="immutable",
+                args=[corpus.closure(ptypes, c["instrs"]), c, pcfg, bool(unambiguous(ptypes, c["instrs"], c["entry"]))], tree="pairs", collect_models=1,
                 expect=["serializing the same instance twice yields identical bytes"]) for c in pcls]
     return js
